@@ -97,7 +97,9 @@ Record topic := mkTop {
   t_marked : bool;
   t_sess : list (N * N);            (* session id -> subscribed user *)
   t_users : list (N * pud);
-  t_owner : N }.
+  t_owner : N;
+  t_supd : bool }.                  (* the instance has a session-update channel: initTopicGrp creates one,
+                                       initTopicNewGrp and initTopicP2P do not *)
 
 Record presflt := mkFlt { f_in : N; f_out : N; f_single : option N; f_excl : option N }.
 Definition nil_flt := mkFlt 0 0 None None.
@@ -151,11 +153,11 @@ Definition get_pud (x : topic) (u : N) : pud :=
 Definition cached (x : topic) (u : N) : bool :=
   match aget N.eqb u (t_users x) with Some p => negb (p_deleted p) | None => false end.
 Definition set_pud (u : N) (p : pud) (x : topic) : topic :=
-  mkTop (t_loaded x) (t_marked x) (t_sess x) (aset N.eqb u p (t_users x)) (t_owner x).
+  mkTop (t_loaded x) (t_marked x) (t_sess x) (aset N.eqb u p (t_users x)) (t_owner x) (t_supd x).
 Definition set_tsess (l : list (N * N)) (x : topic) : topic :=
-  mkTop (t_loaded x) (t_marked x) l (t_users x) (t_owner x).
+  mkTop (t_loaded x) (t_marked x) l (t_users x) (t_owner x) (t_supd x).
 Definition set_tmarked (b : bool) (x : topic) : topic :=
-  mkTop (t_loaded x) b (t_sess x) (t_users x) (t_owner x).
+  mkTop (t_loaded x) b (t_sess x) (t_users x) (t_owner x) (t_supd x).
 Definition p_set_online (z : Z) (p : pud) := mkPud (p_want p) (p_given p) z (p_deleted p).
 Definition p_set_modes (w g : N) (p : pud) := mkPud w g (p_online p) (p_deleted p).
 
@@ -424,10 +426,10 @@ Definition evict_user (x : topic) (uid : N) (unsub : bool) : topic * list out :=
   (set_tsess (filter (fun e => negb (snd e =? uid)) (t_sess x1)) x1, []).
 
 Definition unload_top (x : topic) : topic :=
-  mkTop false false [] (map (fun e => (fst e, p_set_online 0 (snd e))) (t_users x)) (t_owner x).
+  mkTop false false [] (map (fun e => (fst e, p_set_online 0 (snd e))) (t_users x)) (t_owner x) false.
 
 (* hub join of a not yet loaded topic: loadSubscribers *)
-Definition load_top (x : topic) : topic := mkTop true false [] (t_users x) (t_owner x).
+Definition load_top (x : topic) : topic := mkTop true false [] (t_users x) (t_owner x) true.
 
 (* ---------------------------------------------------------------- operations *)
 
@@ -487,7 +489,7 @@ Definition att_p2p (s : state) (sid u v : N) (bkg : bool) : state * list out :=
   | None =>
     (* initTopicP2P creates the topic and both subscriptions (users with default access JRWPAS) *)
     let x := mkTop true false [(sid, u)]
-                   [(u, mkPud ModeCP2P ModeCAuth (b2z (negb bkg)) false); (v, mkPud ModeCP2P ModeCP2P 0 false)] 0 in
+                   [(u, mkPud ModeCP2P ModeCAuth (b2z (negb bkg)) false); (v, mkPud ModeCP2P ModeCP2P 0 false)] 0 false in
     (send (p2p_newsub_notifs t x u v) (put_top t x s), [Ctrl sid 200])
   | Some x0 =>
     let x := if t_loaded x0 then x0 else load_top x0 in
@@ -572,6 +574,7 @@ Definition to_fg (s : state) (sid u : N) (t : tname) : state :=
     match get_top s t with
     | None => s
     | Some x =>
+      if negb (t_supd x) then s else
       let p := get_pud x u in
       let x1 := set_pud u (p_set_online (p_online p + 1) p) x in
       let '(x2, ms) := sub_notif_grp t x1 u sid in
@@ -589,8 +592,8 @@ Definition want_op (s : state) (sid u : N) (t : tname) (mask : N) : state * list
     if negb (sess_on s sid t) then (s, [Skipped]) else
     let p := get_pud x u in
     let isown := is_grp t && (t_owner x =? u) in
-    if negb (is_joiner mask) then (s, [Skipped])
-    else if isown && negb (is_owner mask) then (s, [Ctrl sid 403])
+    if isown && (negb (is_owner mask) || negb (is_joiner mask)) then (s, [Ctrl sid 403])
+    else if negb (is_joiner mask) then (s, [Skipped])
     else if negb isown && is_owner mask then (s, [Ctrl sid 403])
     else if is_grp t && negb isown && has mask mA then (s, [Skipped])
     else
@@ -639,7 +642,7 @@ Definition evict_op (s : state) (sid u : N) (t : tname) (v : N) : state * list o
   | Some x =>
     if negb (sess_on s sid t) then (s, [Skipped]) else
     if negb (is_admin (p_mode (get_pud x u))) || (u =? v) || negb (is_grp t) then (s, [Ctrl sid 403])
-    else if negb (cached x v) then (s, [Ctrl sid 204])
+    else if negb (cached x v) then (s, [Ctrl sid 304])
     else
       let p := get_pud x v in
       if is_owner (p_mode p) || negb (is_joiner (p_want p)) then (s, [Ctrl sid 403]) else
@@ -706,7 +709,7 @@ Definition step (s : state) (o : op) : state * list out :=
     match open_sess s sid u bkg, get_top s (TGrp g) with
     | Some (s1, b), None =>
       let t := TGrp g in
-      let x := mkTop true false [(sid, u)] [(u, mkPud ModeCFull ModeCFull (b2z (negb b)) false)] u in
+      let x := mkTop true false [(sid, u)] [(u, mkPud ModeCFull ModeCFull (b2z (negb b)) false)] u false in
       let '(x2, ms) := if b then (x, []) else sub_notif_grp t x u sid in
       (send ms (put_top t x2 s1), [Ctrl sid 200])
     | _, _ => (s, [Skipped])
@@ -757,7 +760,12 @@ Definition step (s : state) (o : op) : state * list out :=
   | Given sid r v mask =>
     match sess_user s sid with
     | None => (s, [Skipped])
-    | Some u => match r with RMe => (s, [Skipped]) | _ => given_op s sid u (resolve u r) v mask end
+    | Some u =>
+      match r with
+      | RMe => (s, [Skipped])
+      | _ => if u =? v then want_op s sid u (resolve u r) mask   (* replySetSub: target = self *)
+             else given_op s sid u (resolve u r) v mask
+      end
     end
   | Evict sid r v =>
     match sess_user s sid with
